@@ -65,7 +65,8 @@ INVALID = {
 }
 FREE_KEYS = ["greeting", "my_key", "my-key", "nested.key", "K", "team name"]
 FREE_VALUES = ["Hi", "true", "FALSE", "007", "1e3", "-5", "", "null", "~", "yes", "1:30", "0x1F", "a: b", "[1,2]",
-               "{x}", "#c", "ünï", "'q'", '"dq"', "  padded  ", "inf", "1_000", ".5", "a\\nb", "5 # five", "- item"]
+               "{x}", "#c", "ünï", "'q'", '"dq"', "  padded  ", "inf", "1_000", ".5", "a\\nb", "5 # five", "- item",
+               "first\x85second", "trail\x85", "\u2028sep", "tab\there", "a\u00a0b", "\ufeffbom", "😀 non-BMP", "1e-7", "1e22", "\x7fdel"]
 
 
 def typed(value: str):
